@@ -402,3 +402,27 @@ def run(chk: Check, eng: Engine) -> None:
     chk.extra["set_iteration_sites"] = {"total": n_sites, "element_type_unresolved": n_unknown}
     if n_sites < 10:
         raise AnalysisError(f"only {n_sites} set-iteration sites found")
+
+
+# ------------------------------------------------------------------ self-test variants
+from ..mutants import M  # noqa: E402
+
+_ALG = "src/fandango/evolution/algorithm.py"
+_EV = "src/fandango/evolution/evaluation.py"
+_POP = "src/fandango/evolution/population.py"
+_G = "src/fandango/language/grammar/grammar.py"
+MUTANTS = [
+    M("time-budget-in-generation", _ALG, "            if max_generations is not None and generation >= max_generations:\n                break\n            generation += 1\n",
+      "            if max_generations is not None and generation >= max_generations:\n                break\n            if time.time() % 2 > 1.9:\n                continue\n            generation += 1\n", "R17-a"),
+    M("id-as-tiebreak", _EV, "            for x in sorted(evaluation, key=lambda x: x[1], reverse=True)[", "            for x in sorted(evaluation, key=lambda x: (x[1], id(x[0])), reverse=True)[", "R17-a"),
+    M("uuid-in-tree-symbol", _POP, "        return self._grammar.fuzz(self._start_symbol, max_nodes)", "        import uuid\n\n        tag = uuid.uuid4().hex\n        tree = self._grammar.fuzz(self._start_symbol, max_nodes)\n        tree.origin_repetitions.append((tag, 0, 0))\n        return tree", "R17-a"),
+    M("private-unseeded-rng", _EV, "        tournament = random.sample(evaluation, k=min(tournament_size, len(evaluation)))", "        tournament = random.Random().sample(evaluation, k=min(tournament_size, len(evaluation)))", "R17-b"),
+]
+MUTANTS += [
+    M("seeding-removed", _ALG, "        if random_seed is not None:\n            random.seed(random_seed)\n", "", "R17-b"),
+    M("seed-constant", _ALG, "            random.seed(random_seed)\n", "            random.seed(0)\n", "R17-b"),
+    M("dedupe-alternatives-through-set", "src/fandango/language/grammar/nodes/alternative.py", "        random.choice(in_range_nodes).fuzz(parent, grammar, max_nodes, in_message)", "        random.choice(list(set(in_range_nodes))).fuzz(parent, grammar, max_nodes, in_message)", "R17-c"),
+]
+TWINS = [
+    M("twin-log-more-time", _ALG, "        LOGGER.info(f\"Time taken: {(time.time() - start_time):.2f} seconds\")\n\n        return solutions", "        LOGGER.info(f\"Time taken: {(time.time() - start_time):.3f} seconds\")\n\n        return solutions", None),
+]
